@@ -4603,7 +4603,7 @@ def pairwise_permutations(i, j):
     #
     # Allocate the destination arrays
     #
-    d_r = np.zeros(dest_size, i.dtype)
+    d_r = np.zeros(dest_size, int)
     d_j1, d_j2 = np.zeros((2, dest_size), j.dtype)
     #
     # Mark the first item in the destination and then do a cumulative
